@@ -23,7 +23,7 @@ TOL = 1e-6
 CHUNK = 1
 
 EXPAT = [("hi", "hi", "lo", "lo"), ("lo", "lo", "hi", "hi"), ("hi", "lo", "hi", "lo"), ("mid", "hi", "lo", "mid"),
-         ("lo", "mid", "mid", "hi")]
+         ("lo", "mid", "mid", "hi"), ("mid", "mid", "mid", "mid"), ("hi", "hi", "hi", "hi")]
 
 
 def levels(ls):
@@ -41,7 +41,18 @@ def km_patterns(L, tier):
     return [((1, 1),) * 4, ((2, 1), (1, 1), (1, 2), (1, 1)), ((1, 1), (1, 2), (2, 1), (1, 1))]
 
 
-def centres(geom):
+BOYS_T = [12.0, 22.0, 27.0, 31.0, 45.0]
+
+
+def centres(geom, rho=None):
+    if geom.startswith("boys"):
+        # pairs (a,b) on one centre, (c,d) on another, separated so that rho |P-Q|^2 = T for the first primitives
+        T = float(geom[4:])
+        A = np.array(hvec("eri-bA", 3, -0.5, 0.5))
+        u = np.array(hvec("eri-bu", 3, 0.3, 1.0)) * np.array([1, -1, 1])
+        u /= np.linalg.norm(u)
+        C = A + u * np.sqrt(T / rho)
+        return [tuple(A), tuple(A), tuple(C), tuple(C)]
     if geom == "coincident":
         c = tuple(hvec("eri-c", 3, -0.5, 0.5))
         return [c, c, c, c]
@@ -88,8 +99,8 @@ def ill_shells(ti, xy, place):
 
 
 def bounds(tier):
-    return {"quartets": 256, "geometries": 1 if tier == "quick" else 3,
-            "exponent_patterns": 2 if tier == "quick" else len(EXPAT),
+    return {"quartets": 256, "geometries": "general + one Boys-ladder separation per quartet" if tier == "quick" else "general, coincident, collinear + 5 Boys-ladder separations (rho R^2 = 12..45)",
+            "exponent_patterns": 2 if tier == "quick" else 5, "boys_ladder_patterns": "all-mid" if tier == "quick" else "all-mid, all-hi",
             "contraction_patterns": 1 if tier == "quick" else 3, "ill_conditioned_quartets": len(TIGHT) * len(XY) * len(PLACE),
             "whole_bases": "2-4 shells, all type patterns, both notations"}
 
@@ -100,12 +111,21 @@ def configs(tier, seed):
         for xy in XY:
             for pl in PLACE:
                 out.append({"kind": "ill", "tight": ti, "xy": list(xy), "place": pl})
-    geoms = ["general"] if tier == "quick" else ["general", "coincident", "collinear"]
-    for ls in itertools.product(range(4), repeat=4):
-        for g in geoms:
-            for ep in range(2 if tier == "quick" else len(EXPAT)):
+    geoms = ["general"] if tier == "quick" else ["general", "coincident", "collinear"] + ["boys%g" % T for T in BOYS_T]
+    for qi, ls in enumerate(itertools.product(range(4), repeat=4)):
+        qg = list(geoms)
+        if tier == "quick":
+            qg.append("boys%g" % BOYS_T[qi % len(BOYS_T)])
+            if sum(ls) >= 6 and "boys22" not in qg:
+                qg.append("boys22")  # high Boys orders just above a typical switch-over argument
+        for g in qg:
+            for ep in ([0, 1, 5] if tier == "quick" else range(len(EXPAT))):
                 for kp in range(len(km_patterns(sum(ls), tier))):
                     if tier != "quick" and g != "general" and (ep >= 2 or kp == 2):
+                        continue
+                    if g.startswith("boys") != (ep >= 5):
+                        continue  # patterns 5, 6 (all mid / all hi: large rho, so high Boys orders carry weight) <-> Boys ladder
+                    if g.startswith("boys") and (kp != 0 or (tier == "quick" and ep != 5)):
                         continue
                     out.append({"kind": "quartet", "ls": list(ls), "geom": g, "ep": ep, "kp": kp, "tier": tier})
     # whole bases
@@ -125,7 +145,9 @@ def build(cfg):
     if cfg["kind"] == "quartet":
         ls = cfg["ls"]
         lev = levels(ls)
-        cs = centres(cfg["geom"])
+        e0s = [lev[EXPAT[cfg["ep"]][i]] for i in range(4)]
+        p_, q_ = e0s[0] + e0s[1], e0s[2] + e0s[3]
+        cs = centres(cfg["geom"], rho=p_ * q_ / (p_ + q_))
         km = km_patterns(sum(ls), cfg.get("tier", "thorough"))[cfg["kp"]]
         shells = []
         for i in range(4):
